@@ -170,6 +170,15 @@ fn replay_once(v: &Value, c: &Collector) {
         }
         _ => {}
     }
+    if orig_engine == "E5.api.resize-huge" {
+        if let Some(hr) = v["extra"]["huge_resize"].as_array() {
+            let (l, w) = (hr[0].as_u64().unwrap_or(1) as u32, hr[1].as_u64().unwrap_or(1) as u32);
+            // the recorded script = base script + the steps that succeeded; re-run the whole case from the base
+            let n = script.iter().position(|o| matches!(o, Op::Resize(a, b) if *a == Some(l) && *b == Some(w))).unwrap_or(script.len());
+            crate::props4::huge_resize_case(c, columns, lines, &script[..n], l, w, &engine);
+        }
+        return;
+    }
     if columns == 0 || lines == 0 {
         out!("replay: this record has no executable form (engine {}); see its detail field", orig_engine);
         return;
